@@ -8,6 +8,7 @@ pub mod c05;
 pub mod c06;
 pub mod c07;
 pub mod c09;
+pub mod c11;
 pub mod c12;
 pub mod c13;
 pub mod c15;
@@ -24,6 +25,7 @@ pub fn lookup(id: &str) -> Option<&'static dyn Property> {
         "C06" => Some(&c06::C06),
         "C07" => Some(&c07::C07),
         "C09" => Some(&c09::C09),
+        "C11" => Some(&c11::C11),
         "C12" => Some(&c12::C12),
         "C13" => Some(&c13::C13),
         "C15" => Some(&c15::C15),
